@@ -176,6 +176,38 @@ def lt_family(r: common.Rng) -> dict:
     return {"suite": "strl", "parts": parts, "avail": pids, "now": 0, "gran": 1, "tree": {"t": "obj", "name": "O", "ch": ch}}
 
 
+def lt_min_family(r: common.Rng) -> dict:
+    """LessThan whose sides are Min nodes (or a Min and a Max) over Max options of DIFFERENT durations: the
+    critical-path pass pushes the merged bounds of an inner node down to each child, so a merged duration that is
+    not the shortest child's prunes valid early / late options of the shorter children."""
+    k = itertools.count()
+    np_ = r.choice([1, 2, 2])
+    parts = [{"id": i, "name": f"P{i}", "qty": r.choice([1, 2, 2])} for i in range(np_)]
+    pids = [p["id"] for p in parts]
+
+    def mx(task, lo, hi, dur, prefer):
+        kk = r.randint(2, 4)
+        starts = sorted(r.sample(range(lo, hi + 1), min(kk, hi - lo + 1)))
+        utils = [r.randint(1, 3) for _ in starts]
+        best = 0 if prefer == "early" else len(starts) - 1
+        utils[best] = r.randint(4, 6)
+        return {"t": "max", "name": f"M{next(k)}", "ch": [
+            {"t": "choose", "name": task, "parts": r.sample(pids, r.randint(1, len(pids))), "n": 1, "start": s_, "dur": dur, "u": u_}
+            for s_, u_ in zip(starts, utils)]}
+
+    def minside(tag, lo, hi, prefer):
+        durs = r.sample([1, 2, 3, 4], r.randint(2, 3))     # different durations among the children of the Min
+        return {"t": "min", "name": f"N{next(k)}", "ch": [mx(f"T{tag}{i}", lo, hi, d, prefer) for i, d in enumerate(durs)]}
+
+    left = minside("A", 0, 4, "late") if r.random() < 0.8 else mx("TA", 0, 4, r.choice([1, 2, 3]), "late")
+    right = minside("B", 2, 8, "early") if r.random() < 0.5 else mx("TB", 2, 8, r.choice([1, 2]), "early")
+    lt = {"t": "lt", "name": "L", "ch": [left, right]}
+    ch = [lt]
+    if r.random() < 0.3:
+        ch.append({"t": "alloc", "name": "A0", "allocs": [[pids[0], 1]], "start": 0, "dur": r.choice([2, 3, 4])})   # something already running
+    return {"suite": "strl", "parts": parts, "avail": pids, "now": 0, "gran": 1, "tree": {"t": "obj", "name": "O", "ch": ch}}
+
+
 def purge_family(r: common.Rng) -> dict:
     """Contention at one slot between a Max whose Choose options ask for DIFFERENT numbers of machines (several
     strategies of one task, in random order) and competitors on the same partition, with utilities that reward
